@@ -121,3 +121,27 @@ Example C17_hc_mid_nonvacuous :
   0 < hr_ret r <= 20 /\ 0 < hr_consumed r < 100 /\
   strict_valid [] (hr_out r) = Some (firstn (Z.to_nat (hr_consumed r)) l).
 Proof. vm_compute. repeat split; try reflexivity; discriminate. Qed.
+
+(* LZ4_compress_HC_destSize at levels 3-9 (hash chain, fillOutput): nothing is written beyond targetDstSize, and
+   a positive result is a block that the specification decodes to exactly the first *srcSizePtr bytes. *)
+From LZ4V Require Model.HcChain Proofs.HcChainSearch Proofs.HcChainSound Proofs.HcChainCap Proofs.HcChainParser.
+From LZ4V Require Import Model.HcChainApi Proofs.HcChainApiSound.
+
+Theorem C17_hc_chain_destSize :
+  forall src srcSize target cLevel,
+    src_ok src -> 0 <= srcSize < 2147483648 -> 0 <= target -> chain_level cLevel = true ->
+    let r := compress_HC_destSize_chain src srcSize target cLevel in
+    cr_hw r <= target /\
+    (0 < cr_ret r ->
+       cr_ret r = Z.of_nat (length (cr_out r)) /\ cr_ret r <= target /\ 0 <= cr_consumed r <= srcSize /\
+       spec_decode [] (cr_out r) = Some (load_list src 0 (Z.to_nat (cr_consumed r)))).
+Proof. exact chain_destSize. Qed.
+Print Assumptions C17_hc_chain_destSize.
+
+(* Non-vacuity: target 12 at level 4 consumes 46 of 60 bytes into exactly 12 bytes *)
+Example C17_hc_chain_nonvacuous :
+  let l := repeat 7 40 ++ [1; 2; 3; 4; 5; 6; 7; 8; 9; 10; 11; 12; 13; 14; 15; 16; 17; 18; 19; 20] in
+  let r := compress_HC_destSize_chain (mem_of_list 0 l) 60 12 4 in
+  (cr_ret r, cr_consumed r, cr_hw r) = (12, 46, 12) /\
+  spec_decode [] (cr_out r) = Some (firstn 46 l) /\ chain_level 4 = true.
+Proof. vm_compute. repeat split; reflexivity. Qed.
